@@ -308,11 +308,13 @@ class CodeGenerator(abc.ABC):
             if not remove_unused or self._condition(state.name)
         )
 
-    def _parameter_assignments(self, parameters: sympy.IndexedBase) -> str:
+    def _parameter_assignments(
+        self, parameters: sympy.IndexedBase, remove_unused: bool = True
+    ) -> str:
         return "\n".join(
             self._doprint(param.symbol, parameters[i], use_variable_prefix=True)
             for i, param in enumerate(self.ode.parameters)
-            if self._condition(param.name)
+            if not remove_unused or self._condition(param.name)
         )
 
     def _missing_variables_assignments(self):
@@ -462,7 +464,8 @@ class CodeGenerator(abc.ABC):
     ) -> str:
         rhs = self._rhs_arguments(order)
         states = self._state_assignments(rhs.states, remove_unused=False)
-        parameters = self._parameter_assignments(rhs.parameters)
+        # A requested value may be a parameter that this model does not use itself
+        parameters = self._parameter_assignments(rhs.parameters, remove_unused=False)
         missing_variables = self._missing_variables_assignments()
 
         arguments = rhs.arguments
